@@ -943,7 +943,8 @@ class FakeResource:
             if len(lim) != 2:
                 raise ValueError("expected a tuple of 2 integers")
             soft, hard = (r.RLIM_INFINITY if x == -1 else x for x in lim)
-            if soft > hard:
+            inf = lambda x: 2 ** 64 if x == r.RLIM_INFINITY else x  # noqa: E731  (RLIM_INFINITY is -1 in Python)
+            if inf(soft) > inf(hard):
                 raise ValueError("current limit exceeds maximum limit")
             w.set_log.append(("rlimit", pid, (res, (soft, hard)), p.inc))
             p.rlimits[res] = (soft, hard)
